@@ -251,6 +251,10 @@ def evaluate_stateless(prog, case, vals, chests=None, files=None):
         for n_ in sim._comb:
             sim.out[n_] = {}
         obs = ex.observe(sim, val, chest=chest)
+        if obs["missing_inputs"]:
+            return {"compiled": True, "ex": ex, "src": src, "fails": [], "compared": 0, "nonzero": 0,
+                    "skipped": skipped, "sample": None, "build": b,
+                    "undrivable": "declared input(s) %s not found by their label" % obs["missing_inputs"]}
         mm, c, nz = compare_outputs(exp, obs, skip=set(val))
         if case.get("entities", True) and it.enables:
             mm2, c2 = compare_entities(ex, sim, it)
@@ -273,20 +277,7 @@ def evaluate_stateless(prog, case, vals, chests=None, files=None):
 
 
 def _chest_for_interp(prog, chest):
-    """Interp wants entity-id keyed contents; we key by declared entity name through
-    a first pass over top-level places (ids are name#k in declaration order)."""
-    if not chest:
-        return None
-    return _ChestMap(chest)
-
-
-class _ChestMap(dict):
-    """Maps Interp entity ids to contents by (proto,x,y) lazily: Interp calls
-    .get(entity_id) - we need the entity's coordinates, so Interp entities carry them."""
-
-    def __init__(self, by_pos):
-        super().__init__()
-        self.by_pos = by_pos
+    return chest or None
 
 
 def run_stateless_case(case, attribute=None, chests_fn=None, files=None):
@@ -304,6 +295,8 @@ def run_stateless_case(case, attribute=None, chests_fn=None, files=None):
     if not r["compiled"]:
         return dict(base, verdict="vacuous", why="rejected: " + str(r["error"])[:300], src=r["src"])
     base["monitors"] = {"plan": 1 if r["build"].cap else 0, "solver": len(r["build"].solves)}
+    if r.get("undrivable"):
+        return dict(base, verdict="inconclusive", why=r["undrivable"], src=r["src"])
     if r["compared"] == 0:
         return dict(base, verdict="inconclusive", why="nothing observable (no anchors matched)", src=r["src"])
     if not r["fails"]:
